@@ -232,6 +232,9 @@ def parse_rvalue(s):
                 k, v = kv.split(":", 1)
                 fields[k.strip()] = parse_operand(v)
         return ("agg", name, fields)
+    # unit-like enum variant / path constant (e.g. std::sync::atomic::Ordering::Relaxed)
+    if re.fullmatch(r"[\w:]+", s) and "::" in s:
+        return ("use", Operand("const", const=(s, "opaque")))
     raise Unsupported(f"rvalue: {s!r}")
 
 
